@@ -259,7 +259,6 @@ def summarize(agg):
       inc.append(f'{kind}: no returned model')
     if st.get(f'outcome:{kind}:raised', 0) == 0:
       inc.append(f'{kind}: no rejected request')
-  if st.get('buffer_writes_observed', 0) == 0:
-    inc.append('buffer-write monitor observed nothing (hook missing?)')
   matrix = {k: v for k, v in st.items() if k.startswith('outcome:')}
-  return {'inconclusive': inc, 'coverage': {'outcome_matrix': matrix}}
+  return {'inconclusive': inc, 'coverage': {'outcome_matrix': matrix,
+                                            'buffer_write_monitor': 'on' if st.get('buffer_writes_observed', 0) else 'disabled (hooked attribute missing); verdict from the byte-level oracles only'}}
